@@ -38,6 +38,8 @@ def make_cost(name, dim, rng):
     if name == "vector":      # array-valued, reduced by the configured reducer
         red = rng.choice(["npsum", "pair"])
         return (lambda x: np.array([ci * (float(xi) - ai) ** 2 for xi, ai, ci in zip(x, a, c)] + [0.25])), red
+    if name == "infwall_last":    # +inf wherever the LAST coordinate exceeds 1.5 (constraints on the others leave a start there)
+        return (lambda x: float("inf") if float(x[-1]) > 1.5 else float(sum((float(xi) - ai) ** 2 for xi, ai in zip(x, a)))), None
     if name == "infwall":     # legitimately infinite inside the box
         return (lambda x: float("inf") if float(x[0]) > 1.5 else float(sum((float(xi) - ai) ** 2 for xi, ai in zip(x, a)))), None
     raise ValueError(name)
@@ -368,6 +370,8 @@ class ObjRun(object):
             x0 = [rng.uniform(-spread, spread) or 0.5 for _ in range(dim)]
             if cfg.get("far"):
                 x0 = [math.copysign(rng.uniform(20.0, spread), v) for v in x0]
+            if cfg.get("deepinf"):      # a start deep inside the region where the 'infwall_last' objective is +inf
+                x0[-1] = 40.0 + abs(x0[-1])
             if spell != "float":
                 x0 = spelled([float(round(v)) or 1.0 for v in x0], spell)
             s.SetInitialPoints(x0)
